@@ -149,7 +149,8 @@ def phaseStarts (cfg : Cfg) : Sys → List (List Nat) → List (Sys × List Nat)
     system the phase starts from; a phase schedules only operations that had not started before it (operations
     in flight at a crash are abandoned); operation ids stay below the identifier space of the baseline records.
 
-    **Stated, not proved.**  Proved (here and in `Props.lean`):
+    **Proved in full as `multi_crash_spec_full_proved` (`MultiFull.lean`)** — the definition stays here because the
+    proof needs the fresh-tree theorems of `Props.lean`.  Independent partial results (here and in `Props.lean`):
     * A — `crash_keeps_nextSeq`, `crash_wal`, `flushInstall_keeps_newer`, `flushInstall_wal_sub`,
       `recovered_is_durable`: the state-level contracts, for every state;
     * B — `phase_recover_idempotent`, `phase_no_invention`, `idle_phase_keeps_baseline`: the
@@ -159,10 +160,9 @@ def phaseStarts (cfg : Cfg) : Sys → List (List Nat) → List (Sys × List Nat)
     * D — `multi_crash_spec_partial` (`Props.lean`, proof in `PhasesLight*.lean`): this very statement under the
       additional hypothesis `NoInstall` for the phases after the first crash (no flush-install and no
       compaction-install segment executes there; the first phase is unrestricted).
-    Not proved: `durable_survive` / `no_resurrection` (and `no_invention` in terms of the phase's operations and
-    the baseline) for phases after the first crash in which a flush or a compaction installs — the run invariants `LInv` / `WInv` behind
-    `crash_facts_run` are established from a fresh tree (`linv_sysOf`, `winv_init`) only, not from a recovered
-    state with a gap in the log, abandoned pending numbers and abandoned frames. -/
+    The general case (flushes and compactions installing over a recovered state with a gap in the log, abandoned
+    pending numbers and abandoned frames) generalises the run invariants `LInv` / `WInv` to base events without
+    frames: `LsmSysB`, `LsmBookB`, `WalStepB`, `WalRunB`, `SurviveB`, `Multi*.lean`. -/
 def multi_crash_spec_full : Prop :=
   ∀ (cfg : Cfg) (p : Policy) (nkeys : Nat) (ops : List (Nat × OKind)) (oracle : List Bool)
     (ps : List (List Nat)) (every : Bool),
